@@ -22,9 +22,18 @@
    OLD shapes stay: the parameterised theorems (_partial: [eextra se] = sclean when se = false,
    [pextra ri ne] = sclean when ne = false and sfresh when ri = false) and the refutations
    C09_poll_reregister_refuted (ri = false), C09_disabled_called_refuted, C09_backends_agree_refuted,
-   C09_no_fault_refuted (se = false / ne = false). *)
+   C09_no_fault_refuted (se = false / ne = false).
+
+   DEVIATION of the current tree from the property TEXT (review B-1; candidate finding
+   stale-dispatch-within-batch, findings/C09.md): the clause "a callback runs only when ... the channel
+   currently subscribes to it ... a disabled or removed channel is never called" read at the moment of
+   each call is FALSE -- C09_disabled_never_called_refuted(_poll).  What holds is the _partial
+   statement: every callback of an iteration belongs to a channel that was registered, subscribed and
+   ready when THAT iteration polled (C09_disabled_never_called_partial, C09_stale_within_batch: the
+   precise characterisation), so a channel that is off when an iteration polls gets no callback in it:
+   never in a later iteration (C09_off_not_called_next_iteration). *)
 From Coq Require Import List ZArith NArith Lia Bool Arith Permutation.
-From Muduo Require Import Gen_Consts Gen_C09 C09_Model C09_Proofs C09_ProofsPoll C09_ProofsLoop C09_Witness.
+From Muduo Require Import Gen_Consts Gen_C09 C09_Model C09_Proofs C09_ProofsPoll C09_ProofsLoop C09_Witness C09_ProofsStrict.
 Import ListNotations.
 
 (* ==== epoll back-end ==================================================================================== *)
@@ -155,6 +164,12 @@ Theorem C09_poll_no_fault : forall st sp o, reachPC st sp -> pp_step_current st 
 Proof. exact reachPC_no_fault. Qed.
 Print Assumptions C09_poll_no_fault.
 
+(* "called once" for the poll back-end too (review B-5): no channel is reported twice by one poll *)
+Theorem C09_poll_no_duplicates : forall st sp ready choice st' act, reachPC st sp ->
+  pp_step_current st (Poll ready choice) = Ok (st', act) -> NoDup (map fst act).
+Proof. exact pp_poll_nodup. Qed.
+Print Assumptions C09_poll_no_duplicates.
+
 (* any shape (ri, ne): the old ones need sfresh (ri = false) / sclean (ne = false) *)
 Theorem C09_poll_refines_partial : forall ri ne st sp, reachP ri ne st sp ->
   forall o,
@@ -199,6 +214,21 @@ Theorem C09_backends_agree : forall stE stP sp ready choiceE choiceP,
     (length (ep_full stE ready) <= e_cap stE -> forall c r, In (c, r) actP -> In (c, r) actE).
 Proof. exact backends_agree_current. Qed.
 Print Assumptions C09_backends_agree.
+
+(* the same MULTISET on both sides (review B-5): each channel at most once in either list, poll's list a
+   permutation of what the kernel has ready for epoll, and -- when that fits events_ -- a permutation of
+   epoll's list, hence the same multiset of (channel, callback) invocations *)
+Theorem C09_backends_agree_multiset : forall stE stP sp ready choiceE choiceP,
+  reachEC stE sp -> reachPC stP sp ->
+  exists actP stE' actE,
+    pp_step_current stP (Poll ready choiceP) = Ok (stP, actP) /\
+    ep_step_current stE (Poll ready choiceE) = Ok (stE', actE) /\
+    NoDup (map fst actP) /\ NoDup (map fst actE) /\
+    Permutation actP (ep_full stE ready) /\
+    (length (ep_full stE ready) <= e_cap stE ->
+       Permutation actP actE /\ Permutation (callbacks actP) (callbacks actE)).
+Proof. exact backends_agree_multiset. Qed.
+Print Assumptions C09_backends_agree_multiset.
 
 Theorem C09_backends_agree_partial : forall se ri ne stE stP sp ready choiceE choiceP stP' actP,
   reachE se stE sp -> reachP ri ne stP sp ->
@@ -266,6 +296,103 @@ Theorem C09_loop_dispatches_snapshot_generated : EventLoop_loop_dispatches_snaps
 Proof. exact loop_snapshot_current. Qed.
 Print Assumptions C09_loop_dispatches_snapshot_generated.
 
+(* ---- the strict text is refuted ------------------------------------------------------------------------
+   [off sp c] = c is destroyed, not registered, or has no interest enabled; [at_call h sp pre] = the
+   interest map at the moment the callback following the prefix [pre] of the iteration's log is invoked;
+   [never_called_when_off h sp log] = the clause of the property text, at the moment of each call.
+   Two witnesses per back-end, all calls meeting every documented precondition ([batch_ok]):
+   (a) 0 and 1 readable, 0's read callback disables 1: 1's read callback still runs;
+   (b) 0 readable and writable, its read callback does disableAll(); remove(): the write callback of the
+       SAME handleEvent still runs, on a channel that is no longer registered with the loop. *)
+Theorem C09_disabled_never_called_refuted :
+  (exists st act log st', reachEC st (spec_run spec0 w_two) /\ batch_ok h_stale (map fst act) (spec_run spec0 w_two) log /\
+     ep_loop_iter h_stale all_run st readyIN [] = Ok (st', act, log) /\
+     ~ never_called_when_off h_stale (spec_run spec0 w_two) log) /\
+  (exists st act log st', reachEC st (spec_run spec0 w_rw) /\ batch_ok h_self (map fst act) (spec_run spec0 w_rw) log /\
+     ep_loop_iter h_self all_run st readyINOUT [] = Ok (st', act, log) /\
+     ~ never_called_when_off h_self (spec_run spec0 w_rw) log).
+Proof. exact disabled_never_called_refuted_E. Qed.
+Print Assumptions C09_disabled_never_called_refuted.
+
+Theorem C09_disabled_never_called_refuted_poll :
+  (exists st act log st', reachPC st (spec_run spec0 w_two) /\ batch_ok h_stale (map fst act) (spec_run spec0 w_two) log /\
+     pp_loop_iter_current h_stale all_run st readyIN [] = Ok (st', act, log) /\
+     ~ never_called_when_off h_stale (spec_run spec0 w_two) log) /\
+  (exists st act log st', reachPC st (spec_run spec0 w_rw) /\ batch_ok h_self (map fst act) (spec_run spec0 w_rw) log /\
+     pp_loop_iter_current h_self all_run st readyINOUT [] = Ok (st', act, log) /\
+     ~ never_called_when_off h_self (spec_run spec0 w_rw) log).
+Proof. exact disabled_never_called_refuted_P. Qed.
+Print Assumptions C09_disabled_never_called_refuted_poll.
+
+(* ---- PARTIAL: what holds instead.  Extra hypothesis relative to the text: "off" is judged when the
+   iteration POLLS, not when the callback runs.  For every reachable state, poll result and callbacks
+   meeting the preconditions: every callback of the iteration belongs to a channel the poll of THIS
+   iteration reported, i.e. registered, subscribed and ready at that moment; a channel that is off at
+   that moment gets no callback.  The state after the batch is reachable again with the interest map
+   the callbacks' calls lead to, so the statement applies to every later iteration: a stale call is
+   confined to the iteration whose snapshot contained the channel. *)
+Theorem C09_disabled_never_called_partial : forall h runs st sp ready choice st1 act,
+  reachEC st sp -> ep_step_current st (Poll ready choice) = Ok (st1, act) ->
+  batch_ok h (map fst act) sp (callbacks_g runs act) ->
+  exists st', ep_loop_iter h runs st ready choice = Ok (st', act, callbacks_g runs act) /\
+    reachEC st' (spec_run sp (batch_ops h (callbacks_g runs act))) /\
+    (forall c k, In (c, k) (callbacks_g runs act) ->
+       exists r, In (c, r) act /\ In k (dispatch r) /\ spec_reports sp ready c r) /\
+    (forall c, off sp c -> forall k, ~ In (c, k) (callbacks_g runs act)).
+Proof. exact disabled_never_called_partial_E. Qed.
+Print Assumptions C09_disabled_never_called_partial.
+
+Theorem C09_disabled_never_called_partial_poll : forall h runs st sp ready choice st1 act,
+  reachPC st sp -> pp_step_current st (Poll ready choice) = Ok (st1, act) ->
+  batch_ok h (map fst act) sp (callbacks_g runs act) ->
+  exists st', pp_loop_iter_current h runs st ready choice = Ok (st', act, callbacks_g runs act) /\
+    reachPC st' (spec_run sp (batch_ops h (callbacks_g runs act))) /\
+    (forall c k, In (c, k) (callbacks_g runs act) ->
+       exists r, In (c, r) act /\ In k (dispatch r) /\ spec_reports sp ready c r) /\
+    (forall c, off sp c -> forall k, ~ In (c, k) (callbacks_g runs act)).
+Proof. exact disabled_never_called_partial_P. Qed.
+Print Assumptions C09_disabled_never_called_partial_poll.
+
+(* "never in a LATER iteration", spelled out over two consecutive iterations *)
+Theorem C09_off_not_called_next_iteration : forall h runs st sp ready choice st1 act,
+  reachEC st sp -> ep_step_current st (Poll ready choice) = Ok (st1, act) ->
+  batch_ok h (map fst act) sp (callbacks_g runs act) ->
+  exists st', ep_loop_iter h runs st ready choice = Ok (st', act, callbacks_g runs act) /\
+    forall h2 runs2 ready2 choice2 st2 act2,
+      ep_step_current st' (Poll ready2 choice2) = Ok (st2, act2) ->
+      batch_ok h2 (map fst act2) (spec_run sp (batch_ops h (callbacks_g runs act))) (callbacks_g runs2 act2) ->
+      exists st3, ep_loop_iter h2 runs2 st' ready2 choice2 = Ok (st3, act2, callbacks_g runs2 act2) /\
+        forall c, off (spec_run sp (batch_ops h (callbacks_g runs act))) c ->
+          forall k, ~ In (c, k) (callbacks_g runs2 act2).
+Proof. exact off_not_called_next_iteration_E. Qed.
+Print Assumptions C09_off_not_called_next_iteration.
+
+Theorem C09_off_not_called_next_iteration_poll : forall h runs st sp ready choice st1 act,
+  reachPC st sp -> pp_step_current st (Poll ready choice) = Ok (st1, act) ->
+  batch_ok h (map fst act) sp (callbacks_g runs act) ->
+  exists st', pp_loop_iter_current h runs st ready choice = Ok (st', act, callbacks_g runs act) /\
+    forall h2 runs2 ready2 choice2 st2 act2,
+      pp_step_current st' (Poll ready2 choice2) = Ok (st2, act2) ->
+      batch_ok h2 (map fst act2) (spec_run sp (batch_ops h (callbacks_g runs act))) (callbacks_g runs2 act2) ->
+      exists st3, pp_loop_iter_current h2 runs2 st' ready2 choice2 = Ok (st3, act2, callbacks_g runs2 act2) /\
+        forall c, off (spec_run sp (batch_ops h (callbacks_g runs act))) c ->
+          forall k, ~ In (c, k) (callbacks_g runs2 act2).
+Proof. exact off_not_called_next_iteration_P. Qed.
+Print Assumptions C09_off_not_called_next_iteration_poll.
+
+(* the witness (b) one iteration later: the channel that was called while removed is not called again *)
+Theorem C09_stale_confined_to_iteration :
+  (exists st0 outs st1 st2, ep_run_current ep_init w_rw = Ok (st0, outs) /\
+     ep_loop_iter h_self all_run st0 readyINOUT [] = Ok (st1, [(0, N.lor POLLIN POLLOUT)], [(0, CbRead); (0, CbWrite)]) /\
+     ep_loop_iter h_self all_run st1 readyINOUT [] = Ok (st2, [], [])) /\
+  (exists st0 outs st1 st2, pp_run_current pp_init w_rw = Ok (st0, outs) /\
+     pp_loop_iter_current h_self all_run st0 readyINOUT [] = Ok (st1, [(0, N.lor POLLIN POLLOUT)], [(0, CbRead); (0, CbWrite)]) /\
+     pp_loop_iter_current h_self all_run st1 readyINOUT [] = Ok (st2, [], [])).
+Proof. exact stale_confined_to_iteration. Qed.
+Print Assumptions C09_stale_confined_to_iteration.
+
+(* ---- the precise characterisation of what the code does (also a _partial of the text: same extra
+   hypothesis as above) *)
 (* For every reachable state, every poll result [act] and every callback behaviour [h] whose Channel
    API calls respect the preconditions ([batch_ok]: sguard, EventLoop::removeChannel's and ~Channel's
    asserts):
@@ -548,6 +675,30 @@ Qed.
 (* the growth bound is not vacuous: 16 * 2^5 exceeds 300 *)
 Example ex_bound_300 : 300 < kInitEventListSize * 2 ^ 5.
 Proof. vm_compute. lia. Qed.
+
+(* an instance of C09_epoll_bounded_generated on a real state (review B-6): 40 channels, all readable,
+   40 < 16 * 2^2.  Back-to-back polls with the same readiness and no interest change in between (what the
+   theorem covers): the first returns 16 entries (array filled -> 32), the second 32 (-> 64), the third
+   all 40, each channel once *)
+Definition w_many (n : nat) : list op := flat_map (fun i => [New i i; Upd UEnableR i]) (seq 0 n).
+Example ex_bound_instance : exists st outs a1 a2 a3 st3,
+  ep_run_current ep_init (w_many 40) = Ok (st, outs) /\
+  length (ep_full st readyIN) = 40 /\ 40 < Z.to_nat EPollPoller_kInitEventListSize * 2 ^ 2 /\
+  ep_run_current st [Poll readyIN []; Poll readyIN []; Poll readyIN []] = Ok (st3, [a1; a2; a3]) /\
+  length a1 = 16 /\ length a2 = 32 /\ length a3 = 40 /\ e_cap st3 = 64 /\
+  NoDup (map fst a3) /\ Permutation (ep_full st readyIN) a3.
+Proof.
+  destruct (ep_run_current ep_init (w_many 40)) as [[st outs]| |] eqn:E; try (vm_compute in E; discriminate).
+  destruct (ep_run_current st [Poll readyIN []; Poll readyIN []; Poll readyIN []]) as [[st3 o3]| |] eqn:E3;
+    try (vm_compute in E; injection E as <- <-; vm_compute in E3; discriminate).
+  vm_compute in E. injection E as <- <-. vm_compute in E3. injection E3 as <- <-.
+  eexists _, _, _, _, _, _. split; [reflexivity|]. split; [vm_compute; reflexivity|].
+  split; [vm_compute; lia|]. split; [reflexivity|].
+  split; [reflexivity|]. split; [reflexivity|]. split; [reflexivity|]. split; [reflexivity|].
+  split.
+  - vm_compute. repeat (constructor; [cbn; intuition discriminate|]). constructor.
+  - vm_compute. apply Permutation_refl.
+Qed.
 
 (* the F-1 witness on the current tree: it runs, reaches a related state, and the re-registered channel
    is reported *)
